@@ -713,6 +713,14 @@ fn run_builder_check(opts: &Opts, known: &[Known]) -> (Vec<Phase>, BTreeMap<usiz
         if i == 0 || i as usize == scen.len() / 2 {
             st.samples.push((i, t.sample(if v.is_some() { "violation" } else { "ok" })));
         }
+        if v.is_none() && t.pristine_reference {
+            if let Some((v2, witness)) = builder::pollution_check(t) {
+                return handle(v2, Payload::Builder(witness));
+            }
+        }
+        if t.ops.len() <= 64 {
+            builder::remember_ops(&t.ops);
+        }
         v.and_then(|v| handle(v, Payload::Builder(t.clone())))
     });
     phases.push(Phase { name: "directed".into(), items: scen.len() as u64, stats: st, wall_s: t0.elapsed().as_secs_f64() });
@@ -728,6 +736,12 @@ fn run_builder_check(opts: &Opts, known: &[Known]) -> (Vec<Phase>, BTreeMap<usiz
         if i == 0 || i == n / 2 || i == n - 1 {
             st.samples.push((3_000_000 + i, t.sample(if v.is_some() { "violation" } else { "ok" })));
         }
+        if v.is_none() && t.pristine_reference {
+            if let Some((v2, witness)) = builder::pollution_check(&t) {
+                return handle(v2, Payload::Builder(witness));
+            }
+        }
+        builder::remember_ops(&t.ops);
         v.and_then(|v| handle(v, Payload::Builder(t.clone())))
     });
     phases.push(Phase { name: "random".into(), items: n, stats: st, wall_s: t0.elapsed().as_secs_f64() });
@@ -988,6 +1002,9 @@ fn main() {
     }
     if args[1] == "fresh-op" {
         std::process::exit(builder::fresh_op_child(&args[2]));
+    }
+    if args[1] == "judge-history" {
+        std::process::exit(builder::history_child());
     }
     let cmd = args[1].as_str();
     let id = args[2].clone();
